@@ -304,8 +304,18 @@ ANY_SUB = 0     # RFC 4271 does not define subcodes for FSM error / hold timer /
 
 
 def connect_args(s, peering):
-    return {'host': s.get(peering, 'peer_addr'), 'port': 179, 'factory': peering, 'timeout': ANY,
-            'bindAddress': ANY}
+    def within_30s(got):
+        # the bound the timing arguments are stated for (C02 progress lemma; the C12 finding KF-C12-1 is about
+        # connect-retry times <= this bound): a pending attempt ends at most 30 s after it was started
+        if isinstance(got, Any):
+            return True          # the callee's contract applied at a call site: same clause on both sides
+        if isinstance(got, bool) or got is None:
+            return False
+        if isinstance(got, (int, float)):
+            return got <= 30
+        return to_term(got) <= 30
+    return {'host': s.get(peering, 'peer_addr'), 'port': 179, 'factory': peering,
+            'timeout': Any(within_30s, 'connect timeout of at most 30 s'), 'bindAddress': ANY}
 
 
 @prof('hold')
